@@ -1,4 +1,4 @@
-From QV Require Import model.Base model.Lang model.Types model.Tir model.Ceval model.Builder spec.Typing proofs.TypingProofs proofs.BuilderInv proofs.BuilderSafe proofs.TypingSound proofs.IrTyped model.Passes props.C05.
+From QV Require Import model.Base model.Lang model.Types model.Tir model.Ceval model.Builder spec.Typing proofs.TypingProofs proofs.BuilderInv proofs.BuilderSafe proofs.TypingSound proofs.IrTyped model.Passes model.Callback proofs.CallbackProofs props.C05.
 Check (C05_binary : forall E op lt rt s,
   match op with BoLAnd | BoLOr => False | _ => True end ->
   succeeds (binary_check E op lt rt) s = spec_binary E (opclass_of op) lt rt).
@@ -68,3 +68,8 @@ Check (eq_refl : stmt_ok = fun E locals st => match st with TAssign l rv => exis
 Check (eq_refl : term_ok_final = fun t => match t with Some (TmBrCond c _ _) => concrete (operand_tdesc c) = Some T_BOOL | _ => True end).
 Check (eq_refl : (fun E a b ty => rv_ok E (RBinary BoMul a b) ty) = fun E a b ty => spec_binary E (OArith false) (operand_tdesc a) (operand_tdesc b) = Some ty).
 Check (eq_refl : (fun E a ty => rv_ok E (RCopy a) ty) = fun E a ty => spec_assignable E ty (operand_tdesc a) = true).
+Check (C05_callback_parameters_fit_the_signal : forall E args params, verify_params E args params = POk <->
+  (List.length params <= List.length args)%nat /\
+  forall k, (k < List.length params)%nat -> spec_assignable E (nth k params T_VOID) (DConcrete (nth k args T_VOID)) = true).
+Check (eq_refl : verify_params = fun E args params => if Nat.ltb (List.length args) (List.length params) then PTooMany
+  else match bad_positions E 0 args params with [] => POk | l => PIncompatible l end).
